@@ -1,6 +1,7 @@
 """Deep one-sided books: every arrival order (permutation) of n distinct price levels on one side,
 every single cancel, followed by (A) a sweep of k levels in one round for every k in 2..n-2, (B) cancels of the two
-best orders and a crossing order at the then-best level.  Run on the real Market through the
+best orders and a crossing order at the then-best level, (C) a market order sweeping two levels, and -- without any
+cancel -- (D) three sweeps in a row (k1 levels, k2 levels, one level).  Run on the real Market through the
 Engine-M World with the property's monitors.  (Most heap-layout defects need >= 5-7 resting
 orders on one side in a particular arrival order -- out of reach of a depth-4 search from the
 empty book.)"""
@@ -12,6 +13,7 @@ from .explore_m import World, K
 
 _FACTORY = None
 _VARIANTS = ("A", "B", "C")
+_D_MAX_N = 6
 
 
 def cases(ns):
@@ -40,6 +42,21 @@ def _best_index(w, side):
 def fn(case, wit):
     side, n, perm = case
     worst = 100 if side else 100 + n - 1  # price that crosses every resting level
+    if "D" in _VARIANTS and n <= _D_MAX_N:
+        # (D) no cancel: a sweep of k1 levels, then a sweep of k2 levels, then one more level -- three rounds in a row
+        # on the same side (what one round leaves behind is what the next one starts from)
+        try:
+            for k1 in range(1, n - 1):
+                for k2 in range(1, n - k1):
+                    w = _build(side, perm, _FACTORY)
+                    for k in (k1, k2, 1):
+                        w.apply(("L", not side, worst, k, None))
+                        w.apply(("X",))
+                    wit.merge(w.wit)
+                    wit.inc("deep_book_cases")
+        except Violation as v:
+            raise Violation(v.monitor, v.msg.split(" | ")[0], "deep book: %s side, arrival order of price levels %s, successive sweeps | %s" % (
+                "buy" if side else "sell", [100 + k for k in perm], v.msg.split(" | ", 1)[-1]))
     for c in range(n):
         try:
             # (A) cancel, then sweep k levels in one round, for every k (the round's price is set by the LAST
@@ -79,10 +96,106 @@ def fn(case, wit):
     return (side, n)
 
 
-def run(res, factory, tier, seed, ns=None, variants=("A", "B", "C")):
-    global _FACTORY, _VARIANTS
+# ------------------------------------------------------------------------------------------------
+# (E) every heap layout of n resting orders
+
+
+def heap_layouts(n):
+    """all arrays of the ranks 0..n-1 that satisfy the binary-heap order (rank 0 = best).  Submitting n orders in
+    array order builds exactly that array (a pushed element that is not better than its parent stays where it is), so
+    these are all the internal layouts a side of n distinct price levels can have after n submissions -- 3360 for
+    n = 10 instead of 10! arrival orders."""
+    def sizes(m):
+        # sizes of the left / right subtree of a complete binary tree with m nodes
+        if m <= 1:
+            return 0, 0
+        h = m.bit_length() - 1
+        last = m - (2 ** h - 1)
+        left = (2 ** (h - 1) - 1) + min(last, 2 ** (h - 1))
+        return left, m - 1 - left
+
+    def build(keys):
+        m = len(keys)
+        if m == 0:
+            yield {}
+            return
+        root, rest = keys[0], keys[1:]
+        L, R = sizes(m)
+        for left in itertools.combinations(rest, L):
+            ls = set(left)
+            right = tuple(k for k in rest if k not in ls)
+            for lt in build(left):
+                for rt in build(right):
+                    yield (root, lt, rt)
+
+    def flatten(tree, n):
+        arr = [None] * n
+
+        def put(t, i):
+            if not t:
+                return
+            arr[i] = t[0]
+            put(t[1], 2 * i + 1)
+            put(t[2], 2 * i + 2)
+        put(tree, 0)
+        return tuple(arr)
+
+    for t in build(tuple(range(n))):
+        yield flatten(t, n)
+
+
+def layout_cases(ns):
+    for side in (True, False):
+        for n in ns:
+            for arr in heap_layouts(n):
+                yield (side, n, arr)
+
+
+def layout_fn(case, wit):
+    """build the layout, sweep k1 levels in one round, then take the remaining levels one round at a time: whatever
+    a round leaves behind is what the following rounds start from"""
+    side, n, arr = case
+    worst = 100 if side else 100 + n - 1
+    price = (lambda r: 100 + (n - 1 - r)) if side else (lambda r: 100 + r)
+    try:
+        for k1 in range(1, n - 1):
+            w = World("free", _FACTORY())
+            for r in arr:
+                w.apply(("L", side, price(r), 1, None))
+            w.apply(("L", not side, worst, k1, None))
+            w.apply(("X",))
+            for j in range(n - k1):
+                # alternately an order that crosses every level and one priced exactly at the best remaining level
+                # (which trades only if the book knows which order its best one is)
+                rest = [o for o in w.live() if o.is_buy == side]
+                p = min(rest, key=K).price if (rest and j % 2 == 0) else worst
+                w.apply(("L", not side, p, 1, None))
+                w.apply(("X",))
+            wit.merge(w.wit)
+            wit.inc("heap_layout_cases")
+    except Violation as v:
+        raise Violation(v.monitor, v.msg.split(" | ")[0], "deep book: %s side, price levels submitted in the order %s, a sweep of %d levels then one level per round | %s" % (
+            "buy" if side else "sell", [price(r) for r in arr], k1, v.msg.split(" | ", 1)[-1]))
+    return (side, n)
+
+
+def run_layouts(res, factory, tier, seed, ns=None):
+    global _FACTORY
+    _FACTORY = factory
+    ns = ns or ((9, 10) if tier == "quick" else (9, 10, 11))
+    ev0, dn0 = res.coverage.get("evaluations", 0), res.coverage.get("distinct_nontrivial", 0)
+    run_grid(res, "heap_layouts", list(layout_cases(ns)), layout_fn, seed)
+    res.coverage["evaluations"] = ev0 + res.coverage["witness_classes"].get("heap_layout_cases", 0)
+    res.coverage["distinct_nontrivial"] = dn0
+    res.coverage["grids"]["heap_layouts"]["orders_per_side"] = list(ns)
+    res.require_witness(["heap_layout_cases"])
+
+
+def run(res, factory, tier, seed, ns=None, variants=("A", "B", "C", "D")):
+    global _FACTORY, _VARIANTS, _D_MAX_N
     _FACTORY = factory
     _VARIANTS = variants
+    _D_MAX_N = int(__import__("os").environ.get("VF_HEAP_D_MAX_N", "6" if tier == "quick" else "8"))
     ns = ns or ((5, 6, 7) if tier == "quick" else (5, 6, 7, 8))
     ev0, dn0 = res.coverage.get("evaluations", 0), res.coverage.get("distinct_nontrivial", 0)
     run_grid(res, "deep_one_sided_books", list(cases(ns)), fn, seed)
@@ -98,9 +211,9 @@ def replay(payload, factory):
     from .common import Counter
     c = payload["case"]
     case = (c[0], c[1], tuple(c[2]))
-    print("deep one-sided book case (is_buy side, n, arrival permutation):", case)
+    print("deep one-sided book case (is_buy side, n, arrival permutation / heap layout):", case)
     try:
-        fn(case, Counter())
+        (layout_fn if payload.get("grid") == "heap_layouts" else fn)(case, Counter())
     except Violation as v:
         print("  ==> VIOLATION %s: %s" % (v.monitor, v.msg))
         return v
